@@ -273,7 +273,17 @@ def explore(ctx):
                             bad = ['a file saved at this point loads back to a dendrogram that differs in %s' % diff[:4]]
                     elif op == 'plotter':
                         plotter = d.plotter()
-                        history.append([op])
+                        if rng.random() < 0.5:
+                            # what a script does with its plotter (another order, hand-made positions) is that plotter's
+                            # business: the next d.plotter() is a new one in the default layout
+                            if rng.random() < 0.5:
+                                plotter.sort(reverse=True)
+                            else:
+                                plotter.sort(sort_key=lambda s_: float(s_.vmin))
+                            history.append([op, 're-sorted by the caller'])
+                            plotter = None
+                        else:
+                            history.append([op])
                     elif op == 'lines' and structs:
                         # drawing a structure with its subtree must not disturb what the structures report
                         s = rng.choice(structs)
